@@ -27,8 +27,13 @@ func workerC13(thorough bool, shard, nshards int) {
 		jsonschema.VerifResetLazyGlobals()
 		want, _, ok := sequentialResults(sc)
 		if !ok {
-			fmt.Fprintln(os.Stderr, "HARNESS-ERROR c13: sequential results of scenario depend on the order:", sc.name)
-			os.Exit(2)
+			// Already one-after-another the calls give order-dependent results or modify an input
+			// they share (on the pinned tree no scenario does): concurrent callers then race on that
+			// input, and there is no single sequential result to compare schedules with.
+			if shard == 0 {
+				w.Failures = append(w.Failures, envrun.Failure{Key: sc.name + " [sequential]", What: "the calls of this scenario, run one after another in different orders, give different results or leave a shared input modified"})
+			}
+			continue
 		}
 		nthreads := len(want)
 		horizon := 0
